@@ -29,7 +29,9 @@ EXPLANATION = (
     'Constellation consistency: the argument polynomial handed to erfc is '
     'extracted from the symbolic SER, divided by sqrt(snr), and z3 proves it '
     'equals d_min/2 within 1e-12 where d_min and the mean number of nearest '
-    'neighbours are measured on the real symbols table; the SER is then '
+    'neighbours are measured on the symbols the modulator emits '
+    '(modulate(0..M-1), required to equal the symbols table and to have unit '
+    'mean energy); the SER is then '
     'proved to be the neighbour-structure polynomial in that erfc value '
     '(N/2 erfc for BPSK/PSK, 1-(1-N/4 erfc)^2 for square QAM).')
 ASSUMPTIONS = [
@@ -144,24 +146,41 @@ def _build(kind, M, offset=None):
     fu = repo_module(FU)
     if kind == 'BPSK':
         return fu.BPSK()
+    if kind == 'QPSK':
+        return fu.QPSK()
     m = getattr(fu, kind)(M)
     if offset is not None:
         m.setPhaseOffset(offset)
     return m
 
 
-def _measure(symbols):
-    """d_min and mean number of nearest neighbours of the emitted table"""
-    s = np.asarray(symbols, dtype=complex)
+def _emitted(m):
+    """the symbols the modulator actually emits for the labels 0..M-1"""
+    return np.asarray(m.modulate(np.arange(m.symbols.size)), dtype=complex)
+
+
+def _measure(m):
+    """d_min, mean number of nearest neighbours and mean energy of the
+    EMITTED constellation (modulate(0..M-1)), and whether it is the `symbols`
+    table -> (dmin, nbar, Es, problem-or-None)"""
+    s = _emitted(m)
+    tab = np.asarray(m.symbols, dtype=complex)
+    problem = None
+    if s.shape != tab.shape or not np.allclose(s, tab, rtol=0, atol=1e-12):
+        problem = ('modulate(0..M-1) differs from the symbols table: emitted '
+                   '%r, table %r' % (s[:4].tolist(), tab[:4].tolist()))
     D = np.abs(s[:, None] - s[None, :])
     D[np.arange(s.size), np.arange(s.size)] = np.inf
     dmin = float(D.min())
     nbar = float(np.mean(np.sum(D <= dmin * (1 + 1e-9), axis=1)))
-    return dmin, nbar
+    es = float(np.mean(np.abs(s)**2))
+    if problem is None and abs(es - 1) > 1e-9:
+        problem = 'mean energy of the emitted symbols is %r, not 1' % es
+    return dmin, nbar, es, problem
 
 
 def _mods(tier):
-    out = [dict(kind='BPSK', M=2)]
+    out = [dict(kind='BPSK', M=2), dict(kind='QPSK', M=4)]
     out += [dict(kind='PSK', M=M) for M in (2, 4, 8, 16, 32, 64)]
     out += [dict(kind='QAM', M=M) for M in (4, 16, 64, 256, 1024)]
     if tier != 'quick':
@@ -224,15 +243,18 @@ def _float_rates(cfg, s1, s2, L):
         if not (-eps <= e <= K + eps):
             bad['se-range'] = 'SE %r' % (e, )
     # constellation consistency
-    dmin, nbar = _measure(m.symbols)
+    dmin, nbar, es, problem = _measure(m)
+    if problem:
+        bad['constellation'] = problem
     for s, got in zip((s1, s2), ser):
         snr = 10.0**(s / 10.0)
         E = float(erfc(dmin / 2 * math.sqrt(snr)))
         want = (1 - (1 - nbar / 4 * E)**2) if cfg['kind'] == 'QAM' else \
             nbar / 2 * E
-        if cfg['kind'] == 'PSK':
+        if cfg['kind'] in ('PSK', 'QPSK'):
             want = E       # two nearest neighbours: 2 Q(.)
-        if abs(got - want) > 1e-9 * abs(want) + 1e-15:
+        if abs(got - want) > 1e-9 * abs(want) + 1e-15 and \
+                'constellation' not in bad:
             bad['constellation'] = (
                 'SER(%r dB) = %r, implied by d_min=%r, N=%r: %r' %
                 (s, got, dmin, nbar, want))
@@ -299,7 +321,7 @@ class Rates(Harness):
                  FU + ':Modulator.calcTheoreticalPER',
                  FU + ':Modulator.calcTheoreticalSpectralEfficiency',
                  MI + ':qfunc', CV + ':dB2Linear')
-    bounds = ('BPSK, PSK M=4..64, QAM M=4..1024 (thorough: PSK ..1024 and '
+    bounds = ('BPSK, QPSK class, PSK M=4..64, QAM M=4..1024 (thorough: PSK ..1024 and '
               'with phase offsets, QAM 4096); SNR1, SNR2 symbolic in [-30,60] '
               'dB, scalars and 2-element arrays; packet length L in {1,2,3} '
               '(thorough also 8) exactly and L symbolic real >= 1 via the '
@@ -451,7 +473,8 @@ class Rates(Harness):
 
 class Constellation(Harness):
     """the SER expression is the one implied by d_min and the neighbour
-    multiplicity measured on the emitted symbols table."""
+    multiplicity measured on the symbols the modulator emits
+    (modulate(0..M-1)), which must be the `symbols` table with unit energy."""
     name = 'constellation'
     modules = (FU, MI, CV)
     builtins = {'erfc': _erfc}
@@ -479,7 +502,11 @@ class Constellation(Harness):
     def sym(self, ctx, cfg):
         m = _concretely(ctx, lambda: _build(cfg['kind'], cfg['M'],
                                             cfg.get('offset')))
-        dmin, nbar = _measure(m.symbols)
+        dmin, nbar, es, problem = _concretely(ctx, lambda: _measure(m))
+        # "actually emits": modulate(0..M-1) is the symbols table and has
+        # unit mean energy (the SNR convention of the formulas)
+        ctx.record('constellation-emitted', 'sat' if problem else 'unsat',
+                   'structural', model={}, detail=problem)
         s = ctx.real('s1', lo=SLO, hi=SHI)
         ser = R(m.calcTheoreticalSER(s))
         apps = [a for a in sorted(ser.p.atoms())
@@ -501,7 +528,7 @@ class Constellation(Harness):
         N = Fraction(nbar)
         if cfg['kind'] == 'QAM':
             want = 1 - (1 - N / 4 * E)**2
-        elif cfg['kind'] == 'PSK':
+        elif cfg['kind'] in ('PSK', 'QPSK'):
             # two nearest neighbours (for M = 2 they are the same point and
             # the bound 2 Q(.) is exactly twice the exact rate)
             ctx.prove('constellation-neighbours',
@@ -563,7 +590,7 @@ HARNESSES = [Rates(), Constellation()]
 MANIFEST = dict(
     category='model_checking',
     text='Bounded symbolic model checking of the real calcTheoreticalSER / BER '
-    '/ PER / SpectralEfficiency of BPSK, PSK (M=4..64; thorough ..1024 and '
+    '/ PER / SpectralEfficiency of BPSK, QPSK, PSK (M=4..64; thorough ..1024 and '
     'phase offsets) and QAM (M=4..1024; thorough 4096) for ALL SNR in [-30,60] '
     'dB (scalars and 2-element arrays): z3 proves the rates are in [0,1], '
     'non-increasing in SNR, BER <= SER <= log2(M) BER, PER = 1-(1-BER)^L '
@@ -571,7 +598,8 @@ MANIFEST = dict(
     'SE = log2(M)(1-PER); and that the argument handed to erfc divided by '
     'sqrt(snr) equals d_min/2 (1e-12) and the SER is the neighbour-count '
     'polynomial in that erfc value, with d_min and the neighbour multiplicity '
-    'measured on the symbols table the modulator emits.',
+    'measured on modulate(0..M-1), the symbols the modulator emits (which must '
+    'equal its symbols table and have unit mean energy).',
     note='floats as exact reals; erfc/10**x/x**L as uninterpreted functions '
     'with sound axioms; scipy erfc replaced by the UF via module-global '
     'injection; the limit SER->0 is only sampled; PSK: two-nearest-neighbour '
